@@ -248,8 +248,9 @@ PROPS = {
                      "agree_own", "agree_own2", "envOf_indicator", "eval_congr2_term", "eval_congr2_fml", "reachable_wf",
                      "InCoreS.of_reachable", "Exact_ex_inCoreS", "busy_le", "Exact_ex2_inCoreS", "multi_extend", "C05_feasible_iff_multi", "Multi_ex_inCoreS", "fragmentMultiB_sound",
                      "C05_feasible_iff_clean", "C05_sound_groups", "C05_complete_groups", "C05_feasible_iff_groups",
-                     "fragmentGroupsB_sound", "Groups_ex_model", "C05_feasible_iff_groups_multi", "fragmentGroupsMultiB_sound"],
-        "modules": ["Exact", "Multi", "CleanSpec", "Groups"],
+                     "fragmentGroupsB_sound", "Groups_ex_model", "C05_feasible_iff_groups_multi", "fragmentGroupsMultiB_sound",
+                     "C05_unsat_means_no_valid_schedule_groups", "C05_sat_means_valid_schedule_groups"],
+        "modules": ["Exact", "Multi", "CleanSpec", "Groups", "GroupsV"],
         "profiles": [("all", 0.3), ("frag", 0.2), ("resc", 0.1), ("fol", 0.15), ("focus_resc", 0.15), ("focus_taskc", 0.1)],
         "relevant": lambda o: True,
         "spec": None,
